@@ -8,7 +8,7 @@ import traceback
 
 import z3
 
-from . import llir, harness, solve, symex, ops, sym, sysconsts, configs, replay, known, memops, memreplay
+from . import llir, harness, solve, symex, ops, sym, sysconsts, configs, replay, known, memops, memreplay, fp
 
 _MODS = {}
 
@@ -178,22 +178,40 @@ def decide_case(case, pf, budget):
                 # one counterexample per obligation kind is enough for this wrapper
                 break
             else:
+                cm = corner_probe(case, ob0, pf) if not out.get('corner_done') else None
+                out['corner_done'] = True          # once per wrapper: the code shape is the same in every lane
+                if cm is not None:
+                    out['sat'].append({'kind': ob['kind'], 'desc': ob['desc'], 'lane': lane, 'model': cm, 'solver': 'z3-corner', 'ob': ob0})
+                    break
                 note = None
                 if ob0.get('slices') and not out.get('slices_hopeless'):
                     # full domain undecided: decide the stated bounded sub-domains (reported as bounded, never as discharged)
                     okn, cexm = 0, None
+                    cover = bool(ob0.get('slices_cover'))
                     for sname, cons in ob0['slices']:
-                        rs, ms, dts = solve.z3_check(list(case.assumptions) + [sym.bz(cons)], sym.bz(ob0['formula']), budget.get('slice_ms', 6000))
-                        pf.stats.calls['z3'] += 1
-                        pf.stats.time['z3'] += dts
+                        if cover:
+                            # the slices partition the domain: give each the full portfolio
+                            rs, ms, _by = pf.check(list(case.assumptions) + [sym.bz(cons)], sym.bz(ob0['formula']))
+                        else:
+                            rs, ms, dts = solve.z3_check(list(case.assumptions) + [sym.bz(cons)], sym.bz(ob0['formula']), budget.get('slice_ms', 6000))
+                            pf.stats.calls['z3'] += 1
+                            pf.stats.time['z3'] += dts
                         if rs == 'unsat':
                             okn += 1
                         elif rs == 'sat':
                             cexm = ms
                             break
+                        elif cover:
+                            break            # one undecided part already means the split proves nothing
                     if cexm is not None:
                         out['sat'].append({'kind': ob['kind'], 'desc': ob['desc'], 'lane': lane, 'model': cexm, 'solver': 'z3', 'ob': ob0})
                         break
+                    if cover and okn == len(ob0['slices']):
+                        out['discharged'] += 1
+                        out['by_case_split'] = out.get('by_case_split', 0) + 1
+                        if lane is not None:
+                            reps.setdefault((gkind, ob['kind']), []).append((lane, f))
+                        continue
                     out['bounded'] = out.get('bounded', 0) + okn
                     if okn == 0:
                         out['slices_hopeless'] = True
@@ -204,6 +222,60 @@ def decide_case(case, pf, budget):
                 out['undecided'].append(rec)
                 unknown_by_kind[ob['kind']] = unknown_by_kind.get(ob['kind'], 0) + 1
     return out
+
+
+def corner_patterns(w):
+    m = (1 << w) - 1
+    ps = [0, 1, m, 1 << (w - 1), m >> 1, 2, m - 1, 0x5555555555555555 & m, 0xAAAAAAAAAAAAAAAA & m]
+    out = []
+    for p in ps:
+        if p not in out:
+            out.append(p)
+    return out
+
+
+def corner_probe(case, ob, pf, max_combos=90, ms=400):
+    """Undecided obligation: a violation that needs one exact corner value (all-ones, MIN, ...) is a needle no CDCL search finds
+    in a multiplier, while fixing the inputs to a corner makes the query trivial.  Every argument is set lane-uniformly to one
+    of the corner patterns (all combinations, capped) and the solver completes the remaining variables (rounding mode, ...).
+    A hit is a counterexample candidate like any other model (replayed natively before it is reported); no hit proves nothing."""
+    import itertools
+    f = sym.bz(ob['formula'])
+    args = []
+    for inp in getattr(case, 'inputs', []) or []:
+        vs = [v for v in inp.get('vars', []) if not isinstance(v, (int, bool)) and z3.is_const(v) and v.decl().kind() == z3.Z3_OP_UNINTERPRETED]
+        if not vs:
+            continue
+        if z3.is_bool(vs[0]):
+            args.append((vs, [False, True]))
+        elif z3.is_bv(vs[0]):
+            args.append((vs, corner_patterns(vs[0].size())))
+    if not args:
+        return None
+    n = 0
+    for combo in itertools.product(*[range(len(pats)) for _, pats in args]):
+        if n >= max_combos:
+            break
+        n += 1
+        subs = []
+        for (vs, pats), k in zip(args, combo):
+            for v in vs:
+                subs.append((v, z3.BoolVal(pats[k]) if z3.is_bool(v) else z3.BitVecVal(pats[k], v.size())))
+        g = z3.simplify(z3.substitute(f, *subs))
+        if z3.is_false(g):
+            continue
+        asm = [z3.simplify(z3.substitute(sym.bz(a), *subs)) for a in case.assumptions]
+        if any(z3.is_false(a) for a in asm):
+            continue
+        r, m, dt = solve.z3_check(asm, g, ms)
+        pf.stats.calls['z3'] += 1
+        pf.stats.time['z3'] += dt
+        if r == 'sat':
+            m = dict(m or {})
+            for v, val in subs:
+                m[v.decl().name()] = (z3.is_true(val) if z3.is_bool(val) else val.as_long())
+            return m
+    return None
 
 
 def dag_size(t, cache):
@@ -333,6 +405,8 @@ def solve_wrapper(task):
     res = {'name': meta['name'], 'op': meta['op'], 'type': meta['type'], 'cfg': task['cfg'], 'status': 'ok', 'time': 0.0}
     try:
         ops.CTX.consts = sysconsts.load()
+        fp.reset_tags()
+        lemma0 = fp.LEMMA_USES[0]
         mod = get_mod(task['ll'])
         fn = mod.fns[meta['name']]
         res['ir_hash'] = task.get('ir_hash')
@@ -341,6 +415,7 @@ def solve_wrapper(task):
         res['steps'] = case.stats['steps']
         res['intrinsics'] = case.stats['intrinsics']
         res['callees'] = case.stats['callees']
+        res['lemma_exact_quotient'] = fp.LEMMA_USES[0] - lemma0
         b = task['budget']
         pf = solve.Portfolio(z3_ms=b['z3_ms'], fallback_s=b['fallback_s'], use_cvc5=b.get('cvc5', True), use_kissat=b.get('kissat', True), plain_cvc5=b.get('plain_cvc5', False))
         if not vacuity_ok(case, pf):
